@@ -436,6 +436,7 @@ func firstN(s []string, n int) []string {
 var redirectTargets = map[string]string{
 	"VerifStub_util_FetchBuilderClient": "github.com/attestantio/vouch/util.FetchBuilderClient",
 	"VerifStub_json_Unmarshal":          "encoding/json.Unmarshal",
+	"VerifStub_blockrelay_UnmarshalJSON": "github.com/attestantio/vouch/services/blockrelay.UnmarshalJSON",
 }
 
 func sortedKeys(m map[string]int) []string {
